@@ -18,8 +18,8 @@ TEXT = {
  "C03": ("model_checking", "Terms!Eval of printed models, values and assignments in Script_Trace",
          "get-model output is read back by a strict reader into definitions and evaluated by the kernel on every active assertion; get-value and "
          "get-assignment are compared with the value of the term in that same model.", "get-assignment 'unknown' entries are not flagged (see DESIGN 6/C03).", "6/C03"),
- "C04": ("model_checking", "functional-dependency monitor (memo keyed by the spec's Active set) + fresh-run variants, Script_Trace",
-         "Every check-sat of an incremental history is compared with a fresh run on exactly the assertions the specification has on its stack, and with the kernel.",
+ "C04": ("model_checking", "functional-dependency monitor (memo keyed by the spec's Active set) + fresh-run variants, Script_Trace; MainSolver.tla (assertion-stack machine: frames, ids, unsat flags, firstNotSimplifiedFrame, conflict frame) model-checked exhaustively and bound by MainSolver_Trace replay of hooked executions",
+         "Every check-sat of an incremental history is compared with a fresh run on exactly the assertions the specification has on its stack, and with the kernel; every hooked execution of push/pop/insert/simplify/solve is replayed through the frame machine (levels, frame ids, order of simplification, early unsat, conflict frame, ok flag) and every frame flagged unsat is checked against candidate models of its prefix.",
          "Bounded histories (depth <= 3, <= 8 assertions).", "6/C04"),
  "C05": ("model_checking", "memo across configurations in Script_Trace",
          "The same script under up to 15 configurations / logic embeddings; contradicting definitive answers are violations.", "Option space sampled, not exhaustive.", "6/C05"),
@@ -129,6 +129,6 @@ def main():
     print("claimed", len(checks), "not applicable", len(na))
 
 NOT_YET = {}
-HOOK_COMMITS = ["57dbf80", "9859bf3", "678ed52"]
+HOOK_COMMITS = ["57dbf80", "9859bf3", "678ed52", "1099a61"]
 if __name__ == "__main__":
     main()
